@@ -319,7 +319,20 @@ int main(int argc, char** argv) {
         auto long_trace = [&](int kind, Result& R) {
             std::string rep = "long=" + std::to_string(kind); set_note(rep);
             BlockParameters bp; bp.storage_parameters.max_block_items = kind == 0 ? 100000 : 3; std::vector<BlockParameters> bps = {bp}; FilePreamble fp(bps); std::vector<std::string> outs; model::Exporter M({model::from(bp)});
-            int N = kind == 0 ? 3000 : kind == 1 ? 600 : 0;
+            int N = kind == 0 ? 70000 : kind == 1 ? 600 : 0;   // kind 0: one block whose tables outgrow 16-bit indices (70000 distinct addresses / names / signatures) and an address event counted 70000 times
+            if (kind == 3) { // 300 block-parameter sets (indices beyond 8 bits); blocks written under sets 0, 255, 256, 299
+                std::vector<BlockParameters> bs; for (int i = 0; i < 300; i++) { BlockParameters b; b.storage_parameters.max_block_items = 1000 + i; b.storage_parameters.ticks_per_second = 1000 + i; bs.push_back(b); }
+                FilePreamble fpn(bs); std::vector<model::Params> mp; for (auto& b : bs) mp.push_back(model::from(b)); model::Exporter Mn(mp); std::vector<std::string> on;
+                { CdnsExporter e(fpn, MemSink{&on}, CborOutputCompression::NO_COMPRESSION);
+                  for (unsigned set : {0u, 255u, 256u, 299u, 0u}) { Pools Pn = make_pools(1000 + Mn.cur.bpi); e.buffer_qr(Pn.qr[0]); Mn.buffer_qr(Pn.qr[0], nullptr); e.buffer_mm(Pn.mm[0]); Mn.buffer_mm(Pn.mm[0], nullptr);
+                      bool a1 = e.set_active_block_parameters(set), a2 = Mn.set_active(set); if (a1 != a2) R.violation("values|long-trace|set-active", "set_active_block_parameters(" + std::to_string(set) + ") returned " + std::to_string(a1), rep); e.write_block(); Mn.write_block(); }
+                  if (e.set_active_block_parameters(300)) R.violation("values|long-trace|set-active", "index 300 of 300 sets accepted", rep); }
+                R.count("traces"); R.count("nontrivial");
+                std::string ex = "P{" + Mn.outs[0].preamble + "}"; for (auto& b : Mn.outs[0].blocks) ex += "|B{" + b.dump() + "}"; ex += "|eof";
+                std::string ld = lib::file_dump(lib::read_bytes(on.at(0))), rd; try { rd = lib::file_dump(ref::read_file(on.at(0))); } catch (std::exception& e) { rd = e.what(); }
+                if (ld != ex) R.violation("values|long-trace|many-parameter-sets|library-reader", "300 parameter sets: library reader differs from what was written", rep);
+                if (rd != ex) R.violation("values|long-trace|many-parameter-sets|independent-reader", "300 parameter sets: file differs from what was written: " + rd.substr(0, 80), rep);
+                R.outcome("long3"); R.sample(rep + ";parameter sets=300;blocks under sets 0,255,256,299"); return; }
             if (kind == 2) { // more than 2^16 blocks in one output, a rotation exactly at a multiple of 2^16 blocks, then more blocks (counters wider than 16 bits)
                 BlockParameters b1; b1.storage_parameters.max_block_items = 1; std::vector<BlockParameters> bs = {b1}; FilePreamble fp1(bs); std::vector<std::string> o2; model::Exporter M2({model::from(b1)}); bool counters_ok = true; size_t reported = 0;
                 { CdnsExporter e(fp1, MemSink{&o2}, CborOutputCompression::NO_COMPRESSION); GenericQueryResponse q = P.qr[1];
@@ -335,8 +348,9 @@ int main(int argc, char** argv) {
                     catch (std::exception& e) { R.violation("values|long-trace|invalid-output", "output " + std::to_string(oi) + " (" + std::to_string(want) + " blocks) is not a complete valid file: " + e.what(), rep); } }
                 R.outcome("long2"); R.sample(rep + ";blocks=65536+70000;bytes=" + std::to_string(o2[0].size()) + "+" + std::to_string(o2[1].size())); return; }
             { CdnsExporter e(fp, MemSink{&outs}, CborOutputCompression::NO_COMPRESSION);
-              for (int i = 0; i < N; i++) { GenericQueryResponse g = P.qr[i % 5]; g.client_ip = std::string("\x0a", 1) + std::string(1, (char)(i >> 16)) + std::string(1, (char)(i >> 8)) + std::string(1, (char)i); g.query_name = std::string("\5label", 6) + std::to_string(i * 7919); g.transaction_id = i & 0xffff; g.ts = Timestamp(1600000000 + i / 7, (i * 142857) % 1000000);
-                  e.buffer_qr(g); M.buffer_qr(g, nullptr); if (i % 11 == 0) { e.buffer_aec(P.aec[i % 3]); M.buffer_aec(P.aec[i % 3], nullptr); } if (i % 13 == 0) { GenericMalformedMessage m = P.mm[0]; m.client_port = i & 0xffff; e.buffer_mm(m); M.buffer_mm(m, nullptr); } }
+              for (int i = 0; i < N; i++) { GenericQueryResponse g = P.qr[i % 5]; g.client_ip = std::string("\x0a", 1) + std::string(1, (char)(i >> 16)) + std::string(1, (char)(i >> 8)) + std::string(1, (char)i); g.query_name = std::string("\5label", 6) + std::to_string(i * 7919); g.transaction_id = i & 0xffff; g.ts = Timestamp(1600000000 + i / 7, ((uint64_t)i * 142857) % 1000000);
+                  if (kind == 0) { g.server_port = i & 0xffff; g.query_udp_size = (i >> 16) + 512; if (g.response_answers) (*g.response_answers)[0].ttl = (uint32_t)i; }
+                  e.buffer_qr(g); M.buffer_qr(g, nullptr); if (kind == 0) { e.buffer_aec(P.aec[0]); M.buffer_aec(P.aec[0], nullptr); } if (i % 11 == 0) { e.buffer_aec(P.aec[i % 3]); M.buffer_aec(P.aec[i % 3], nullptr); } if (i % 13 == 0) { GenericMalformedMessage m = P.mm[0]; m.client_port = i & 0xffff; e.buffer_mm(m); M.buffer_mm(m, nullptr); } }
               e.write_block(); M.write_block(); }
             std::string expect = "P{" + M.outs[0].preamble + "}"; for (auto& b : M.outs[0].blocks) expect += "|B{" + b.dump() + "}"; expect += "|eof";
             R.count("traces"); R.count("nontrivial");
@@ -348,11 +362,11 @@ int main(int argc, char** argv) {
         if (!a.replay.empty()) { std::string s = slurp(a.replay); Case c; int lk; Pool rp(1, 120);
             rp.run(1, [&](uint64_t, Result& R) { if (sscanf(s.c_str(), "long=%d", &lk) == 1) long_trace(lk, R); else if (sscanf(s.c_str(), "f1=%d;v1=%d;f2=%d;v2=%d;base=%d", &c.f1, &c.v1, &c.f2, &c.v2, &c.base) == 5) run_case(c, R); },
                    [&](uint64_t, const std::string& d, Result& R) { R.violation("values|" + crash_key(d), d.substr(0, 1500), s); }, total); return done(total.viol.empty() ? 0 : 1); }
-        uint64_t chunk = 16, ntasks = (cases.size() + chunk - 1) / chunk + 3;
+        uint64_t chunk = 16, ntasks = (cases.size() + chunk - 1) / chunk + 4;
         Pool pool(a.jobs, 300);
         pool.run(ntasks, [&](uint64_t ti, Result& R) {
             if (a.expired()) { R.deadline_hit = true; return; }
-            if (ti >= ntasks - 3) { long_trace((int)(ti - (ntasks - 3)), R); return; }
+            if (ti >= ntasks - 4) { long_trace((int)(ti - (ntasks - 4)), R); return; }
             for (uint64_t i = ti * chunk; i < std::min<uint64_t>(cases.size(), (ti + 1) * chunk); i++) run_case(cases[i], R);
             if (ti % 61 == 0) R.sample(std::string("field ") + F[cases[ti * chunk].f1].name + " variant " + std::to_string(cases[ti * chunk].v1) + " base " + std::to_string(cases[ti * chunk].base));
         }, [&](uint64_t, const std::string& d, Result& R) { R.violation("values|" + crash_key(d), d.substr(0, 1500), pool.last_note); }, total);
